@@ -1,11 +1,14 @@
 (* Executable glue for the tokenizer properties (C04, C15, C12, C13, C09, C05, tokenizer part of C03).
    input  = L [I tokenizer; I option-bits; text; L [separators; quotes]]
+            or, for the CSV tokenizer, L [separators; quotes; L [call ...]] with call = L [I 0; chars] (SetFieldSeparators) |
+            L [I 1; chars] (SetQuoteSymbols): the configuration is then what the OBJECT model (CsvObject.v) holds after that
+            history of setter calls, refused ones included - the harness makes exactly these calls
             tokenizer 0 generic | 1 expression | 2 csv | 3 mustache
             option bits: 1 skipUnknown 2 skipWhitespaces 4 skipComments 8 skipEof 16 mergeWhitespaces 32 unifyNumbers 64 decodeStrings
    output = L [L [I type; value; I line; I column] ...]   |  L [I (-999)] (a state panicked)  |  L [I (-997)] (out of fuel) *)
 From Coq Require Import List ZArith Bool.
 Import ListNotations.
-Require Import Sx Base Cursor Tokenizer TokModel.
+Require Import Sx Base Cursor Tokenizer TokModel CsvObject.
 Open Scope Z_scope.
 
 Definition opts_of_bits (b : Z) : options :=
@@ -15,7 +18,12 @@ Definition opts_of_bits (b : Z) : options :=
 Definition tkind_of (input : sx) : tkind :=
   match gz (nth_sx 0 input) with
   | 0 => TGeneric | 1 => TExpr
-  | 2 => TCsv (gstr (nth_sx 0 (nth_sx 3 input))) (gstr (nth_sx 1 (nth_sx 3 input)))
+  | 2 => match gl (nth_sx 3 input) with
+         | [_; _; h] =>
+             let o := fold_left cstep (map (fun c => if gz (nth_sx 0 c) =? 0 then SetSeps (gstr (nth_sx 1 c)) else SetQuotes (gstr (nth_sx 1 c))) (gl h)) cinit in
+             TCsv (o_seps o) (o_quotes o)
+         | _ => TCsv (gstr (nth_sx 0 (nth_sx 3 input))) (gstr (nth_sx 1 (nth_sx 3 input)))
+         end
   | _ => TMustache
   end.
 
